@@ -61,18 +61,18 @@ Section Combiner.
     then single_flavor_light gw gfl prc rest inv (g_kind c) nf hq (g_pto c)
     else Ok [].
 
+  (* what one massive quark sfh contributes: intrinsic + heavy kernels (does not look at g_hq) *)
+  Definition heavy_body (c : ccfg) (sfh : Z) : outcome (list kernel) :=
+    let nf := g_nf c in
+    do i <- (if g_ffn0 c then intrinsic_asy gw prc rest inv (g_kind c) nf (g_ptoe c) sfh
+             else intrinsic_generate gw prc rest inv (g_kind c) sfh);
+    do h <- (if g_ffn0 c then heavy_asy gw prc rest inv (g_kind c) nf (g_ptoe c) sfh
+             else heavy_generate gw prc rest inv (g_kind c) nf sfh);
+    Ok (i ++ h)%list.
+  Definition heavy_sel (c : ccfg) (sfh : Z) : bool :=
+    in_masses sfh && massive c sfh && ((g_hq c =? 0)%Z || (g_hq c =? sfh)%Z).
   Definition heavy_components (c : ccfg) : outcome (list kernel) :=
-    let nf := g_nf c in let hq := g_hq c in
-    concat_out (map (fun sfh =>
-      if negb (in_masses sfh) then Ok []
-      else if negb (massive c sfh) then Ok []
-      else if negb ((hq =? 0)%Z || (hq =? sfh)%Z) then Ok []
-      else
-        do i <- (if g_ffn0 c then intrinsic_asy gw prc rest inv (g_kind c) nf (g_ptoe c) sfh
-                 else intrinsic_generate gw prc rest inv (g_kind c) sfh);
-        do h <- (if g_ffn0 c then heavy_asy gw prc rest inv (g_kind c) nf (g_ptoe c) sfh
-                 else heavy_generate gw prc rest inv (g_kind c) nf sfh);
-        Ok (i ++ h)%list) (range_to_6 nf)).
+    concat_out (map (fun sfh => if heavy_sel c sfh then heavy_body c sfh else Ok []) (range_to_6 (g_nf c))).
 
   Definition collect (c : ccfg) : outcome (list kernel) :=
     let lt := match g_family c with FamLight | FamTotal => true | _ => false end in
